@@ -25,7 +25,7 @@ ROOTS = {
     'C08': [HJ],
     'C09': [ATH],
     'C10': [U + '::discipline_sort_key', U + '::text_discipline_sort_key', U + '::sort_by_discipline', U + '::get_distance',
-            U + '::get_duration_event_time', U + '::_field_sort_order', AG + '::AgeGrader.event_code_to_kind', 'athlib/codes.py'],
+            U + '::get_duration_event_time', '?' + U + '::_field_sort_order', AG + '::AgeGrader.event_code_to_kind', 'athlib/codes.py'],
     'C11': ['athlib/tyrving_score.py', 'athlib/qkids_score.py', 'athlib/sportshall_score.py', 'athlib/bulgarian_score.py'],
     'C12': [U + '::check_performance_for_discipline', U + '::parse_hms', U + '::get_distance', U + '::field_event_record',
             U + '::format_seconds_as_time', 'athlib/codes.py'],
@@ -49,6 +49,10 @@ def hist_scope(repo, pid):
     entries = []
     missing = []
     for r in roots:
+        optional = r.startswith('?')        # a helper that exists only on some trees (reached through the closure anyway when it exists)
+        r = r.lstrip('?')
+        if optional and ('::' in r) and not (r.split('::')[0] in g.mods and r.split('::')[1] in g.mods[r.split('::')[0]].functions):
+            continue
         if '::' in r:
             rel, q = r.split('::')
             if rel in g.mods and q in g.mods[rel].functions:
